@@ -418,7 +418,7 @@ def run(tier: str) -> dict:
         viol, stats = string_obligations()
     except (ValueError, RuntimeError) as e:
         return {'levels': [], 'inconclusive': [f'string encoding: {e}'], 'errors': []}
-    lv = levels(tier)
+    lv = common.tiered(levels, tier)
     res = common.run_levels_parallel([l for l in lv if l.get('small')])
     res2 = common.run_levels([l for l in lv if not l.get('small')])
     res['levels'].extend(res2['levels'])
